@@ -580,7 +580,18 @@ def r18f(rep, F):
     want = {('lt', lin.canon({lower[0]: 1, 'this.averageCost_': -1})),
             ('lt', lin.canon({'this.averageCost_': 1, upper[0]: -1}))}
     have = set(f for f in forms if f)
-    win = [f for f in have if f[0] == 'eq' and 'this.solutionsWindow_' in dict(f[1])]
+    # window full: the compared count is min(solutions_, window) == window, or solutions_ >= window.  (solutions_ ==
+    # window would only ever be true at the n-th solution.)
+    mink = None
+    for name, (k, init, sid) in decl.items():
+        if init is None:
+            continue
+        mc = [c for c in fn.walk(init) if c.get('callee') == 'std::min']
+        if mc and {fn.fp(a) for a in mc[0]['ch']} == {'this.solutions_', 'this.solutionsWindow_'}:
+            mink = k
+    win = [f for f in have if (mink and f == ('eq', lin.canon({mink: 1, 'this.solutionsWindow_': -1}))) or
+           (mink and f == ('eq', lin.canon({mink: -1, 'this.solutionsWindow_': 1}))) or
+           f == ('le', lin.canon({'this.solutionsWindow_': 1, 'this.solutions_': -1}))]
     ok = want <= have and bool(win)
     rep.add('R18f', fn.name, 'guarded-terminate', ok, fn.where(term[0]),
             'terminate() under window-full and lower < average < upper' if ok else
